@@ -36,6 +36,7 @@ func extraFacts(lf *leanFile) {
 	capabilityFacts(lf)
 	tarfsFacts(lf)
 	compactFacts(lf)
+	lockFacts(lf)
 	refFacts(lf)
 	copyFacts(lf)
 }
